@@ -10,7 +10,7 @@ pub fn ok_or_str<'a>(o: Option<&'a Str>, e: PathError) -> (r: Result<&'a Str, Rv
     ensures o is Some ==> r is Ok && r->Ok_0@ == o->Some_0@, o is None ==> r is Err && r->Err_0.kind == e.kind
 { match o { Some(s) => Ok(s), None => Err(e.into()) } }
 impl PathBuf {
-//@ item path_to_string file=src/core/string.rs block="impl ToStringExt for Path" fn=to_string props=C15,C12
+//@ item path_to_string file=src/core/string.rs block="impl ToStringExt for Path" fn=to_string props=C15,C12,C05,C17,C14
 //@ rw R1 1 ⟦self.to_str().ok_or(PathError::failed_to_string(self))?⟧ => ⟦ok_or_str(self.to_str(), PathError::failed_to_string(self))?⟧
 //@ rw R1 1 ⟦Ok(String::from(_str))⟧ => ⟦Ok(_str.to_string())⟧
     pub fn to_string(&self) -> (r: RvResult<Str>)
@@ -38,7 +38,7 @@ pub proof fn lemma_suffix_boundary(s: Seq<char>, t: Seq<char>)
 //@ obligation lemma_prefix_boundary props=C15
 //@ obligation lemma_suffix_boundary props=C15
 
-//@ item trim_prefix file=src/sys/fs/path.rs fn=trim_prefix props=C15,C12
+//@ item trim_prefix file=src/sys/fs/path.rs fn=trim_prefix props=C15,C12,C09,C01
 //@ sig pub fn trim_prefix<T: AsRef<Path>, U: AsRef<Path>>(path: T, prefix: U) -> PathBuf
 //@ rw R7 * re⟦PathBuf::from\(&base\[([^\]]+)\.\.\]\)⟧ => ⟦PathBuf::from_s(&base.slice_from(\1))⟧
 //@ rw R4 * ⟦.chars().count()⟧ => ⟦.chars_count()⟧
@@ -120,7 +120,7 @@ pub proof fn lemma_mash_contains_dir(d: Comps, p: Comps)
 }
 //@ obligation lemma_mash_contains_dir props=C15
 
-//@ item mash file=src/sys/fs/path.rs fn=mash props=C15,C05,C17,C18,C12
+//@ item mash file=src/sys/fs/path.rs fn=mash props=C15,C05,C17,C18,C12,C09,C01,C10
 //@ sig pub fn mash<T: AsRef<Path>, U: AsRef<Path>>(dir: T, base: U) -> PathBuf
 //@ rw R3 1 for
 //@ rw R4 1 ⟦path.components().collect::<PathBuf>()⟧ => ⟦collect_components(path.components())⟧
@@ -160,7 +160,7 @@ pub fn mash(dir: &PathBuf, base: &PathBuf) -> (r: PathBuf)
 //@ body
 
 // ---- single-component splitters
-//@ item base file=src/sys/fs/path.rs fn=base props=C15,C12
+//@ item base file=src/sys/fs/path.rs fn=base props=C15,C12,C01,C03,C09
 //@ sig pub fn base<T: AsRef<Path>>(path: T) -> RvResult<String>
 pub fn base(path: &PathBuf) -> (r: RvResult<Str>)
     ensures path.comps().len() == 0 ==> r is Err && r->Err_0.kind == ErrKind::ItemNotFound,
@@ -176,7 +176,7 @@ pub fn first(path: &PathBuf) -> (r: RvResult<Str>)
     ensures path.comps().len() == 0 ==> r is Err && r->Err_0.kind == ErrKind::ItemNotFound,
             (path.comps().len() > 0 && r is Ok) ==> r->Ok_0@ == comp_str(path.comps()[0]),     //@ clause first.is_first_component [C15]
 //@ body
-//@ item trim_first file=src/sys/fs/path.rs fn=trim_first props=C15,C05,C12
+//@ item trim_first file=src/sys/fs/path.rs fn=trim_first props=C15,C05,C12,C17
 pub fn trim_first(path: &PathBuf) -> (r: PathBuf)
     ensures r.comps() =~= (if path.comps().len() > 0 { path.comps().skip(1) } else { path.comps() }),     //@ clause trim_first.splits_off_exactly_one [C15]
 //@ body
@@ -188,7 +188,7 @@ pub fn trim_last(path: &PathBuf) -> (r: PathBuf)
 pub fn ok_or_parent<'a>(o: Option<&'a PathBuf>, p: &PathBuf) -> (r: Result<&'a PathBuf, RvError>)
     ensures o is Some ==> r is Ok && same_path(r->Ok_0, o->Some_0), o is None ==> r is Err && r->Err_0.kind == ErrKind::ParentNotFound
 { match o { Some(s) => Ok(s), None => Err(PathError::parent_not_found(p).into()) } }
-//@ item dir file=src/sys/fs/path.rs fn=dir props=C15,C05,C12
+//@ item dir file=src/sys/fs/path.rs fn=dir props=C15,C05,C12,C01,C03,C09
 //@ rw R4 1 ⟦path.parent().ok_or_else(|| PathError::parent_not_found(path))?⟧ => ⟦ok_or_parent(path.parent(), path)?⟧
 pub fn dir(path: &PathBuf) -> (r: RvResult<PathBuf>)
     ensures (path.comps().len() == 0 || path.comps() == seq![Component::RootDir]) ==> r is Err && r->Err_0.kind == ErrKind::ParentNotFound,
@@ -282,7 +282,7 @@ pub open spec fn spec_trim_protocol(s: Seq<char>) -> Seq<char> {
         if l.len() > 0 { s } else { s.skip(k + 2) }
     }
 }
-//@ item trim_protocol file=src/sys/fs/path.rs fn=trim_protocol props=C15,C05,C12
+//@ item trim_protocol file=src/sys/fs/path.rs fn=trim_protocol props=C15,C05,C12,C01
 //@ sig pub fn trim_protocol<T: AsRef<Path>>(path: T) -> PathBuf
 //@ rw R4 1 ⟦base.find("//")⟧ => ⟦base.find_dslash()⟧
 //@ rw R4 * re⟦format!\("\{\}\{\}", (\w+), (\w+)\)⟧ => ⟦&fmt_concat(\1, &\2)⟧
